@@ -344,24 +344,35 @@ def _wells_arg(a, present):
 def x_shift(p):
     rt = robotools()
     exc0, exc, exc2 = None, None, None
-    shifted, unshifted = NOSHAPE, NOSHAPE
+    shifted, unshifted, shifted2, argafter = NOSHAPE, NOSHAPE, NOSHAPE, NOSHAPE
     try:
         sh = rt.WellShifter(tuple(p["A"]), tuple(p["B"]), wid(*p["anchor"]))
     except Exception as e:  # noqa
         exc0 = e
     if exc0 is None:
+        if p.get("own"):
+            # the object has been used before, on its own table of source wells (a caller shifting "the whole plate")
+            try:
+                sh.unshift(sh.shift(sh.wells_A))
+            except Exception:  # noqa
+                pass
         try:
-            res = sh.shift(_wells_arg(p["wells"], p.get("present", "list")))
+            arg = _wells_arg(p["wells"], p.get("present", "list"))
+            res = sh.shift(arg)
             shifted = _arr_to_shape(res)
             try:
                 unshifted = _arr_to_shape(sh.unshift(res))
             except Exception as e:  # noqa
                 exc2 = e
+            # values are values: what was handed in and what came out are looked at again after the later call
+            shifted2 = _arr_to_shape(res)
+            argafter = _arr_to_shape(arg) if isinstance(arg, np.ndarray) else p["wells"]
         except Exception as e:  # noqa
             exc = e
-    return {"fn": "shift", "id": f"A={p['A']} B={p['B']} anchor={p['anchor']} k={p['wells']['k']}", "A": p["A"], "B": p["B"],
+    return {"fn": "shift", "id": f"A={p['A']} B={p['B']} anchor={p['anchor']} k={p['wells']['k']}" + (" used-before" if p.get("own") else ""),
+            "A": p["A"], "B": p["B"],
             "anchor": p["anchor"], "wells": p["wells"], "ctor": outcome_class(exc0), "out": outcome_class(exc),
-            "out2": outcome_class(exc2), "shifted": shifted, "unshifted": unshifted}
+            "out2": outcome_class(exc2), "shifted": shifted, "unshifted": unshifted, "shifted2": shifted2, "argafter": argafter}
 
 
 @executor("rot")
@@ -370,7 +381,7 @@ def x_rot(p):
     sh = tuple(p["shape"])
     sw = (sh[1], sh[0])
     exc = None
-    res = {"cw": NOSHAPE, "ccw": NOSHAPE, "cwccw": NOSHAPE, "ccwcw": NOSHAPE, "cw4": NOSHAPE}
+    res = {"cw": NOSHAPE, "ccw": NOSHAPE, "cwccw": NOSHAPE, "ccwcw": NOSHAPE, "cw4": NOSHAPE, "cw2": NOSHAPE, "argafter": NOSHAPE}
     try:
         r1, r2 = rt.WellRotator(sh), rt.WellRotator(sw)
         arg = _wells_arg(p["wells"], p.get("present", "list"))
@@ -381,6 +392,8 @@ def x_rot(p):
         res["cwccw"] = _arr_to_shape(r2.rotate_ccw(cw))
         res["ccwcw"] = _arr_to_shape(r2.rotate_cw(ccw))
         res["cw4"] = _arr_to_shape(r2.rotate_cw(r1.rotate_cw(r2.rotate_cw(cw))))
+        res["cw2"] = _arr_to_shape(cw)
+        res["argafter"] = _arr_to_shape(arg) if isinstance(arg, np.ndarray) else p["wells"]
     except Exception as e:  # noqa
         exc = e
     rec = {"fn": "rot", "id": f"shape={p['shape']} k={p['wells']['k']}", "shape": p["shape"], "wells": p["wells"], "out": outcome_class(exc)}
@@ -394,7 +407,7 @@ def x_rand(p):
     sh = tuple(p["shape"])
     exc = None
     tab1, tab2 = [], []
-    res = {"rnd": NOSHAPE, "back": NOSHAPE}
+    res = {"rnd": NOSHAPE, "back": NOSHAPE, "rnd2": NOSHAPE, "argafter": NOSHAPE}
     try:
         kw = {} if p["mode"] == "default" else {"mode": p["mode"]}
         r1 = rt.WellRandomizer(sh, p["seed"], **kw)
@@ -405,6 +418,8 @@ def x_rand(p):
         rnd = r1.randomize_wells(arg)
         res["rnd"] = _arr_to_shape(rnd)
         res["back"] = _arr_to_shape(r2.derandomize_wells(rnd))
+        res["rnd2"] = _arr_to_shape(rnd)
+        res["argafter"] = _arr_to_shape(arg) if isinstance(arg, np.ndarray) else p["wells"]
     except Exception as e:  # noqa
         exc = e
     rec = {"fn": "rand", "id": f"shape={p['shape']} seed={p['seed']} mode={p['mode']} k={p['wells']['k']}", "shape": p["shape"],
